@@ -34,7 +34,7 @@ def toQ (f : List Int) : QPoly := f.map (fun (c : Int) => (c : Rat))
 def zDerivative (f : List Int) : List Int := (f.zipIdx.drop 1).map (fun (c : Int × Nat) => (c.2 : Int) * c.1)
 
 /-- square-free over Q: gcd(f, f') = 1 with a verified Bezout certificate -/
-def sqfreeZ (f : List Int) : Bool := zDeg f = 0 || coprimeCert (toQ f) (toQ (zDerivative f))
+def sqfreeZ (f : List Int) : Bool := zDeg f = 0 || coprimeCert (toQ f) (QPoly.derivative (toQ f))
 def sqfreeFp (p : Nat) (f : List Int) : Bool :=
   fpDeg p f = 0 || (!(fpIsZero p (zDerivative f)) && FPoly.coprimeCert p f (zDerivative f))
 
@@ -88,7 +88,10 @@ def checkFactor (op : String) (args res : List String) : Verdict :=
               else
                 -- find a reducible factor as the witness
                 match facs.findSome? (fun fm => blocks.findSome? (fun bl => if zDeg bl.1 < zDeg fm.1 then (zDivExact? fm.1 bl.1).map (fun _ => (fm.1, bl.1)) else none)) with
-                | some (fct, bl) => .viol "fac/ufull/reducible" s!"returned factor {showUPoly fct} is divisible by {showUPoly bl}"
+                | some (fct, bl) =>
+                  -- known finding D28: the lifting assumes a monic input; a reducible factor with |lc| > 1 is that defect
+                  if (zLc fct).natAbs ≠ 1 then .viol "fac/ufull/reducible-nonmonic" s!"returned non-monic factor {showUPoly fct} is divisible by {showUPoly bl}"
+                  else .viol "fac/ufull/reducible" s!"returned factor {showUPoly fct} is divisible by {showUPoly bl}"
                 | none => .viol "fac/ufull/multiset" "the factors are not the irreducible factors of the input with their multiplicities"
             | _, _ => .skip "parse blocks"
           | _ => .skip "parse blocks"
